@@ -14,7 +14,12 @@
    This is NARROWER than the property's wording, which only sets aside "strings compared by test
    operations": here all strings are restricted, also those no test touches.  The index theorems of
    the first half, C18_first_failure, the totality statements of C04 and the output theorems
-   C18_step_keeps_tokens / C18_output_general carry no such restriction. *)
+   C18_step_keeps_tokens / C18_output_general carry no such restriction.
+   FURTHER HYPOTHESES of the simulation (since the model tells the four null-like nodes of the package
+   apart, ImplV4.v / V4NullWalk.v): (1) a test operation below the root carries a value member
+   (has_value4, inside op_dom4); (2) no copy is handed the operation value null (copy_clean4 for a
+   step, the boolean no_null_copy4 for a run; C18_null_copy_deviation shows the package succeeding
+   where RFC 6902 fails when this is violated; every patch without copy satisfies it). *)
 From JP Require Import Bytes Json Text Strings Den Pointer Rfc6902 ImplV5 ImplV4 ImplFacts.
 
 Theorem C18_get_index : forall g (ns : list node) t,
@@ -125,12 +130,14 @@ Print Assumptions C18_equal_is_structural.
 (* deepCopy: the marshalled text (members sorted, HTML-escaped) is a well-formed raw message and
    denotes the same value up to member order: copy yields an independent duplicate *)
 Theorem C18_copy_duplicates : forall v, ngood4 v ->
-  rawok (enc4 v) /\ jeq (den (enc4 v)) (aval4 v) = true /\ (v <> NNil -> enc4 v <> TNull).
+  rawok (enc4 v) /\ jeq (den (enc4 v)) (aval4 v) = true /\ (null4 v = false -> enc4 v <> TNull).
 Proof. exact enc4_codec. Qed.
 Print Assumptions C18_copy_duplicates.
 
 (* one operation (all kinds but copy): the legacy step computes the reference step with the two
-   documented deviations (rfc4_step) EXACTLY, member order included; same error class otherwise *)
+   documented deviations (rfc4_step) EXACTLY, member order included; same error class otherwise.
+   op_dom4 asks a test below the root for a value member (RFC 6902 requires one): without it the
+   package compares the nil POINTER and fails on a member holding the operation value null *)
 Theorem C18_step_exact : forall g st op,
   sgood4 st -> op_dom4 op -> op_kind op <> KCopy ->
   match rfc4_step (d4 g) (sval4 st) (den_op op) with
@@ -140,9 +147,13 @@ Theorem C18_step_exact : forall g st op,
 Proof. exact step4_sim_nocopy. Qed.
 Print Assumptions C18_step_exact.
 
-(* one operation of any kind (copy included), up to member order *)
+(* one operation of any kind (copy included), up to member order.  A copy must not be handed the
+   operation value null (copy_clean4: the node deepCopy receives is not raw_nil4, i.e. not a null that
+   an earlier add / replace of the patch wrote): the package stores the raw TEXT null for it, and a
+   later path through that member is walked like an empty object (C18_null_copy_deviation below) *)
 Theorem C18_step : forall g st op doc,
   g_limit g = 0%Z -> sgood4 st -> veq (sval4 st) doc -> op_dom4 op ->
+  (op_kind op = KCopy -> copy_clean4 g st op) ->
   match rfc4_step (d4 g) doc (den_op op) with
   | Rfc6902.Ok j' => exists st', step4 g st op = Ok st' /\ veq (sval4 st') j' /\ sgood4 st'
   | Rfc6902.Fail cz => exists e, step4 g st op = Err e /\ cause_rel cz e
@@ -193,6 +204,47 @@ Theorem C18_test_absent : forall g st op r ms,
 Proof. exact step4_test_absent. Qed.
 Print Assumptions C18_test_absent.
 
+(* ---- the THIRD deviation, found by the correspondence harness and observed on the package
+   (V4NullWalk.v): it is NOT covered by the simulation but excluded by hypothesis (copy_clean4 for one
+   copy, no_null_copy4 for a run: a boolean that evaluates the model).  The value null of an add /
+   replace is a node with a nil raw message (raw_nil4); deepCopy stores for it the raw TEXT null
+   (raw_null4), which is outside the invariant: findObject enters it (intoDoc unmarshals null into the
+   nil map) where RFC 6902 says the path does not exist.  Nulls of the document, nulls inside composite
+   values and absent members are nil nodes and ARE covered. ---- *)
+Theorem C18_null_copy_outside_invariant : forall g, fst (deep_copy4 g raw_nil4) = raw_null4 /\ ~ ngood4 raw_null4.
+Proof. exact deep_copy4_raw_nil. Qed.
+Print Assumptions C18_null_copy_outside_invariant.
+
+(* a patch without copy satisfies the hypothesis in every state; so does a copy of an absent member *)
+Theorem C18_no_copy_is_clean : forall g p, Forall (fun op => op_kind op <> KCopy) p -> forall st, no_null_copy4 g st p = true.
+Proof. exact no_copy_no_null_copy4. Qed.
+Print Assumptions C18_no_copy_is_clean.
+
+Theorem C18_copy_of_absent_is_clean : forall g st op rf r,
+  sgood4 st ->
+  op_str op (B "from") = Ok (x2f :: rf) -> Forall tok_dom4 (map decode_token (split_slash rf)) ->
+  op_str op (B "path") = Ok (x2f :: r) -> Forall tok_dom4 (map decode_token (split_slash r)) ->
+  get_at (d4 g) (ptoks rf) (sval4 st) = Rfc6902.Fail FMissingMember -> copy_clean4 g st op.
+Proof. exact copy_clean4_absent. Qed.
+Print Assumptions C18_copy_of_absent_is_clean.
+
+(* the deviation itself: add null, copy it, test below the copy.  The reference stops at operation 2
+   (the path goes through null), the package succeeds; the hypothesis no_null_copy4 is false here and
+   no_deviation (the first two deviations) does not see it *)
+Definition C18_dv_doc := B "{""b"":1}".
+Definition C18_dv_patch := B "[{""op"":""add"",""path"":""/b"",""value"":null},{""op"":""copy"",""from"":""/b"",""path"":""/n""},{""op"":""test"",""path"":""/n/x"",""value"":null}]".
+Definition C18_dv_t : tjson := match parse C18_dv_doc with Some t => t | None => TNull end.
+Definition C18_dv_p : list operation := match api_decode4 C18_dv_patch with Some p => p | None => [] end.
+Example C18_null_copy_deviation :
+  rfc_apply (d4 (mkOpts4 true 0 None)) (den C18_dv_t) (map den_op C18_dv_p) = Failed 2 FUnreachable /\
+  api_apply4 (mkOpts4 true 0 None) [] C18_dv_p C18_dv_doc = Out4 (B "{""b"":null,""n"":null}") /\
+  no_deviation (d4 (mkOpts4 true 0 None)) (den C18_dv_t) (map den_op C18_dv_p) = true /\
+  (forall c, api_start4 C18_dv_t = Some c -> no_null_copy4 (mkOpts4 true 0 None) (mkState4 c 0) C18_dv_p = false).
+Proof.
+  split; [vm_compute; reflexivity|]. split; [vm_compute; reflexivity|]. split; [vm_compute; reflexivity|].
+  intros c Hc. vm_compute in Hc. inversion Hc; subst c. vm_compute. reflexivity.
+Qed.
+
 (* the reference does not depend on member order: related documents give related results and the
    same failure causes *)
 Theorem C18_reference_respects_order : forall d a b o, rop_ok o -> veq a b -> req (rfc4_step d a o) (rfc4_step d b o).
@@ -204,7 +256,7 @@ Print Assumptions C18_reference_respects_order.
    past the last operation, or the first failing operation's index with the corresponding error *)
 Theorem C18_apply_patch : forall g p i st doc,
   g_limit g = 0%Z -> sgood4 st -> veq (sval4 st) doc -> Forall op_dom4 p ->
-  no_deviation (d4 g) doc (map den_op p) = true ->
+  no_deviation (d4 g) doc (map den_op p) = true -> no_null_copy4 g st p = true ->
   match rfc_apply_from (d4 g) i doc (map den_op p) with
   | Done doc' => exists st', apply4_from g i st p = (Ok st', (i + length p)%nat) /\ veq (sval4 st') doc' /\ sgood4 st'
   | Failed j cz => exists e, apply4_from g i st p = (Err e, j) /\ cause_rel cz e
@@ -220,12 +272,21 @@ Theorem C18_apply_refines_rfc : forall g indent p doc t,
   g_limit g = 0%Z ->
   parse doc = Some t -> root_container t = true -> tnodup t = true -> tplain t -> tkeys t ->
   Forall op_dom4 p -> no_deviation (d4 g) (den t) (map den_op p) = true ->
+  (forall c, api_start4 t = Some c -> no_null_copy4 g (mkState4 c 0) p = true) ->
   match rfc_apply (d4 g) (den t) (map den_op p) with
   | Done j => exists n, api_apply4 g indent p doc = Out4 (output4 indent (render4 n)) /\ veq (aval4 n) j /\ ngood4 n
   | Failed i cz => exists e, api_apply4 g indent p doc = Err4 (Some i) e /\ cause_rel cz e
   end.
 Proof. exact api_apply4_sim. Qed.
 Print Assumptions C18_apply_refines_rfc.
+
+(* the hypothesis on the run follows from a boolean on the bytes that is part of the model file
+   (ImplV4.api_no_null_copy4) *)
+Theorem C18_clean_run_from_bytes : forall g p doc t,
+  parse doc = Some t -> root_container t = true -> api_no_null_copy4 g p doc = true ->
+  forall c, api_start4 t = Some c -> no_null_copy4 g (mkState4 c 0) p = true.
+Proof. exact api_no_null_copy4_start. Qed.
+Print Assumptions C18_clean_run_from_bytes.
 
 (* without copy the result is the RFC document exactly (member order as RFC 6902 in Rfc6902.v) *)
 Theorem C18_apply_refines_rfc_exact : forall g indent p doc t,
@@ -304,12 +365,16 @@ Proof.
        end.
   - ptr_ok_tac.
   - split; [ptr_ok_tac|]. eexists. split; [vm_compute; reflexivity | ptr_ok_tac].
-  - left. ptr_ok_tac.
+  - left. split; [ptr_ok_tac | vm_compute; discriminate].
   - left. ptr_ok_tac.
   - split; [ptr_ok_tac|]. eexists. split; [vm_compute; reflexivity | ptr_ok_tac].
   - ptr_ok_tac.
-  - left. ptr_ok_tac.
+  - left. split; [ptr_ok_tac | vm_compute; discriminate].
 Qed.
+
+(* the run of the example hands no operation value null to deepCopy *)
+Lemma C18_ex_clean : forall c, api_start4 C18_ext = Some c -> no_null_copy4 (mkOpts4 true 0 None) (mkState4 c 0) C18_exp = true.
+Proof. intros c Hc. vm_compute in Hc. inversion Hc; subst c. vm_compute. reflexivity. Qed.
 
 Example C18_sim_nonvacuous :
   exists n, api_apply4 (mkOpts4 true 0 None) [] C18_exp C18_exdoc = Out4 (output4 [] (render4 n)) /\
@@ -329,6 +394,7 @@ Proof.
   - vm_compute; repeat split; utf8_ascii.
   - exact C18_ex_dom.
   - vm_compute; reflexivity.
+  - exact C18_ex_clean.
 Qed.
 Print Assumptions C18_sim_nonvacuous.
 
@@ -379,6 +445,7 @@ Theorem C18_apply_output_bytes : forall g indent p doc t,
   g_limit g = 0%Z ->
   parse doc = Some t -> root_container t = true -> tnodup t = true -> tplain t -> tkeys t ->
   Forall op_dom4 p -> Forall op_tok p -> no_deviation (d4 g) (den t) (map den_op p) = true ->
+  (forall c, api_start4 t = Some c -> no_null_copy4 g (mkState4 c 0) p = true) ->
   wsb indent = true ->
   match rfc_apply (d4 g) (den t) (map den_op p) with
   | Done j =>
@@ -395,6 +462,7 @@ Theorem C18_apply_output_rfc : forall g indent p doc t j,
   g_limit g = 0%Z ->
   parse doc = Some t -> root_container t = true -> tnodup t = true -> tplain t -> tkeys t ->
   Forall op_dom4 p -> Forall op_tok p -> no_deviation (d4 g) (den t) (map den_op p) = true ->
+  (forall c, api_start4 t = Some c -> no_null_copy4 g (mkState4 c 0) p = true) ->
   wsb indent = true ->
   rfc_apply (d4 g) (den t) (map den_op p) = Done j -> (odepth j <= max_depth)%N ->
   exists out t', api_apply4 g indent p doc = Out4 out /\ parse out = Some t' /\ veq (den t') j /\ valid_gen out = true.
@@ -417,6 +485,7 @@ Proof.
   - exact C18_ex_dom.
   - apply (api_decode4_tok C18_expatch). vm_compute. reflexivity.
   - vm_compute; reflexivity.
+  - exact C18_ex_clean.
   - reflexivity.
   - vm_compute; reflexivity.
   - vm_compute. intro H; discriminate H.
@@ -458,6 +527,7 @@ Proof.
   - exact C18_ex_dom.
   - apply (C18_decoded_patch_tokens C18_expatch). vm_compute. reflexivity.
   - vm_compute; reflexivity.
+  - exact C18_ex_clean.
   - reflexivity.
   - vm_compute. discriminate.
   - exists out, t'. split; [exact H1|]. split; [exact H2|]. split; [exact H3|]. split; [exact H4|]. split; [exact H5|].
